@@ -249,6 +249,10 @@ class Impl:
             ops = [self.pipes[p][1][o] for p, o in refs]
             pl = self.pipes[refs[0][0]][0] if refs else self.pipes[0][0]
             try:
+                if self.sc.get("listing"):
+                    from eudoxia.workload.runtime_status import ASSIGNABLE_STATES
+                    for plx in {id(o.pipeline): o.pipeline for o in ops}.values():
+                        plx.runtime_status().get_ops(ASSIGNABLE_STATES, require_parents_complete=False)
                 fl = self.sc.get("flags") or {}      # flags the executor's admission and accounting must ignore
                 # an assignment flagged as a resumption may also name the container it continues (the REST protocol and `Assignment` carry the
                 # field): it is still a new container, with a number of its own
